@@ -1,6 +1,7 @@
 /-
 M-Store: the writes keep "every cached entry equals the DB record" (SaveBlock: when it does not
-re-write a stored hash with different content), and so does every history of such operations.
+re-write the transaction list of a stored hash with a different one — a hash determines its
+transactions), and so does every history of such operations.
 -/
 import BytomModel.Lemmas.Store
 
@@ -25,10 +26,10 @@ theorem saveBlockHeader_ok {s : Store} (ok : CacheOK s) (h : Header) : CacheOK (
     · simp only [e, if_false] at hg
       exact ok.keyed b h' hg
 
-/-- `SaveBlock` does not change an already stored header / tx list of the same hash -/
+/-- `SaveBlock` does not change the already stored tx list of the same hash (the hash commits to
+    the transactions; the header fields it does not commit to MAY change) -/
 def Compatible (s : Store) : Op → Prop
-  | .saveBlock h txs =>
-    (∀ h0, aGet s.db.hdr h.hash = some h0 → h0 = h) ∧ (∀ t0, aGet s.db.txs h.hash = some t0 → t0 = txs)
+  | .saveBlock h txs => ∀ t0, aGet s.db.txs h.hash = some t0 → t0 = txs
   | _ => True
 
 theorem forall_some_iff {α : Type} (o : Option α) (v : α) :
@@ -56,19 +57,16 @@ theorem saveBlock_ok {s : Store} (ok : CacheOK s) (h : Header) (txs : List Nat)
   | mk l s1 =>
     rw [hh] at ok1 d1
     simp only at ok1 d1 ⊢
-    obtain ⟨hc1, hc2⟩ := hc
-    rw [← d1] at hc1 hc2
+    have hc2 := hc
+    unfold Compatible at hc2
+    rw [← d1] at hc2
     refine ⟨?_, ?_, ?_, ok1.main, ok1.ckpt, ?_⟩
     · intro e he
+      obtain ⟨hm, hk⟩ := mem_lru_remove _ _ _ he
       simp only
       rw [aGet_aSet]
-      by_cases hk : e.1 = h.hash
-      · simp only [hk, if_true]
-        have := ok1.hdr e he
-        rw [hk] at this
-        rw [hc1 _ this]
-      · simp only [hk, if_false]
-        exact ok1.hdr e he
+      simp only [hk, if_false]
+      exact ok1.hdr e hm
     · intro e he
       simp only
       rw [aGet_aSet]
